@@ -79,6 +79,9 @@ pub(crate) struct Reader {
 
 	/// Whether compression type record has been read
 	compression_type_record_read: bool,
+
+	/// File offset behind the last metadata record read between records
+	metadata_end: u64,
 }
 
 impl Reader {
@@ -108,7 +111,13 @@ impl Reader {
 			log_number,
 			compression_type: CompressionType::None,
 			compression_type_record_read: false,
+			metadata_end: 0,
 		}
+	}
+
+	/// File offset behind the last metadata record that was read outside a fragmented record.
+	pub(crate) fn metadata_end(&self) -> u64 {
+		self.metadata_end
 	}
 
 	/// Returns the compression type detected from the WAL file.
@@ -326,6 +335,9 @@ impl Reader {
 					self.buffer_offset += length as usize;
 					self.compression_type = CompressionType::from_u8(compression_byte)?;
 					self.compression_type_record_read = true;
+				}
+				if fragment_index == 0 {
+					self.metadata_end = (self.end_of_buffer_offset - self.buffer_remaining()) as u64;
 				}
 				continue; // Don't return this as a data record
 			}
